@@ -9,7 +9,8 @@ KU = 12
 
 def gen_lru_case(rng, cid, nops):
     is_map = rng.random() < 0.6
-    lines = [f"case l{cid}", "cfg lrumap" if is_map else "cfg lruset"]
+    kt = rng.choice(["int", "str", "str", "mk", "mk"])     # std::string and move-sensitive keys/values
+    lines = [f"case l{cid}", f"cfg {'lrumap' if is_map else 'lruset'} {kt}"]
     nkeys = rng.choice([2, 3, 5, 8, KU])
     size = 0
     present = set()
@@ -81,7 +82,8 @@ def _lru_replay(lines):
 def gen_splay_case(rng, cid, nops):
     multi = rng.random() < 0.55
     cmp = rng.choice(["less", "less", "greater"])
-    lines = [f"case s{cid}", f"cfg splay {'multi' if multi else 'set'} {cmp}"]
+    kt = rng.choice(["int", "mk"])
+    lines = [f"case s{cid}", f"cfg splay {'multi' if multi else 'set'} {cmp} {kt}"]
     nkeys = rng.choice([2, 3, 4, 6, KU])
     count = 0          # exact number of stored keys (tracked through a multiset)
     ms = {}
@@ -117,6 +119,30 @@ def gen_splay_case(rng, cid, nops):
     return lines
 
 
+def gen_dup_chain_case(rng, cid):
+    """multiset with >= 4 copies of one key, other keys interleaved, then the copies are erased one by one"""
+    cmp = rng.choice(["less", "greater"])
+    lines = [f"case c{cid}", f"cfg splay multi {cmp} {rng.choice(['int', 'mk'])}"]
+    k = rng.randrange(1, KU - 1)
+    copies = rng.randint(4, 9)
+    others = [x for x in range(KU) if x != k]
+    for i in range(copies):
+        lines.append(f"insert {k}")
+        for _ in range(rng.randint(0, 2)):
+            o = rng.choice(others)
+            lines.append(rng.choice([f"insert {o}", f"exists {o}", f"find {o}", f"erase {o}"]))
+    lines.append("trav")
+    for i in range(copies + 1):
+        if rng.random() < 0.5:
+            lines.append(rng.choice([f"exists {rng.choice(others)}", f"find {rng.randrange(-1, KU + 1)}", f"insert {rng.choice(others)}"]))
+        lines.append(f"erase {k}")
+        if rng.random() < 0.3:
+            lines.append("check")
+    lines.append("trav")
+    lines.append(f"exists {k}")
+    return lines
+
+
 def exhaustive_splay(multi, cmp, nkeys, length):
     """all histories of the given length over insert/erase/exists of `nkeys` keys (+ clear)"""
     alphabet = [f"{o} {k}" for o in ("insert", "erase", "exists") for k in range(nkeys)] + ["clear"]
@@ -134,6 +160,7 @@ def exhaustive_splay(multi, cmp, nkeys, length):
 
 class C17(flow.Spec):
     pid = "C17"
+    source_files = ("tlx/container/lru_cache.hpp", "tlx/container/splay_tree.hpp")
     harness = dict(name="c17", sources=["c17.cpp"])
     nontrivial_rule = ("random histories from VERIF_SEED over a key universe of 2..12 keys; an LRU case is non-trivial when "
                        "it contains a pop after a touch/get_touch of a present key and a thrown range_error; a splay case "
@@ -155,18 +182,30 @@ class C17(flow.Spec):
     def cases(self, ctx, seed, tier, round_no=0):
         rng = random.Random(seed * 1000003 + round_no * 7919 + 17)
         n = 500 if tier == "quick" else 40000
+        deep_quick = tier == "thorough" and getattr(ctx, "tier", tier) == "quick"
+        if deep_quick:
+            n = 4000       # quick run validating changed sources in depth: bounded
         cs = []
         for i in range(n):
             cs.append(gen_lru_case(rng, i, rng.choice([6, 15, 30, 60])))
         for i in range(n + n // 2):
             cs.append(gen_splay_case(rng, i, rng.choice([6, 15, 30, 60, 100])))
+        for i in range(60 if tier == "quick" else (400 if deep_quick else 3000)):
+            cs.append(gen_dup_chain_case(rng, i))
         if round_no == 0:
             # small exhaustive enumerations (quick: length 4 over 2 keys; thorough: length 5 over 2 keys, 4 over 3)
             for multi in (False, True):
-                cs += exhaustive_splay(multi, "less", 2, 4 if tier == "quick" else 5)
-                if tier != "quick":
+                cs += exhaustive_splay(multi, "less", 2, 4 if (tier == "quick" or deep_quick) else 5)
+                if tier != "quick" and not deep_quick:
                     cs += exhaustive_splay(multi, "greater", 3, 4)
         return cs
+
+    def probe_lines(self, case, idx):
+        """observations that turn a structural disagreement into a visible failure of the property"""
+        kind = case[0].split()[1][0]
+        if kind == "l":
+            return ["size"] + [f"exists {k}" for k in range(-1, KU + 1)] + ["pop"] * (KU + 2) + ["size"]
+        return ["trav", "size", "check"] + [f"exists {k}" for k in range(-1, KU + 1)] + ["trav", "clear", "size"]
 
     def nontrivial(self, case, answers):
         kind = case[0].split()[1][0]
@@ -181,7 +220,7 @@ class C17(flow.Spec):
                 if touched and op == "pop" and not a.startswith("bad-op"):
                     return ("l", tuple(ops)) if threw else None
             return None
-        if kind == "x":
+        if kind in "xc":
             return None
         erased_big = False
         cleared = False
